@@ -116,6 +116,12 @@ def component_case(draw):
         c["group"] = draw(gen.group_defs(max_groups=1))[0]
     elif what == "classgroups":
         c["groups"] = draw(gen.group_defs(name_alphabet="abcXYZ019-_ .:"))
+        if draw(st.integers(0, 3)) == 0:
+            # given as a plain list: the names are generated (group_0 ... group_11), one label per group
+            n = draw(st.integers(1, 12))
+            kinds = [draw(st.sampled_from(["plain", "merge", "single"])) for _ in range(n)]
+            c["groups"] = [{"name": f"group_{i}", "labels": [i + 1], "kind": k} for i, k in enumerate(kinds)]
+            c["as_list"] = True
     else:
         c["enum"] = draw(st.sampled_from(["Metric", "InputType", "CCABackend", "EdgeCaseResult", "EdgeCaseZeroTP", "MetricMode", "MetricType"]))
         c["index"] = draw(st.integers(0, 5))
@@ -463,6 +469,8 @@ def check_component(case, stats, d):
             raise Violation(f"loaded label group differs: {obj} vs {loaded}")
     elif what == "classgroups":
         obj = lib.groups(case["groups"])
+        if case.get("as_list"):
+            obj = H.lib_call(lambda: SegmentationClassGroups([obj[g["name"]] for g in case["groups"]]))
         loaded, _ = roundtrip(obj, SegmentationClassGroups, d, "cg")
         compare_groups(obj, loaded)
     else:
